@@ -1,5 +1,9 @@
 """C04 — methods execute exactly when called by a running caller."""
+import random
+
+from ..coregen.gen import generate_cond
 from ..coregen.prop import CoreProp
+from ..kernel import h64
 
 
 class Prop(CoreProp):
@@ -12,6 +16,14 @@ class Prop(CoreProp):
             "internal set order, driven for 60-160 cycles; distinct = distinct (program, arbiter, set of transactions running in a "
             "cycle); non-trivial = at least one transaction ran")
     expected_cov = ["method_ran", "nonexclusive_method_multiple_callers", "nested_body_ran", "concurrent_transactions"]
+
+    def gen_config(self, rng, tier, idx):
+        cfg = super().gen_config(rng, tier, idx)
+        if idx % 4 == 3:  # nested transactions created by condition(): branches never run without their body
+            prng = random.Random(h64(self.master_seed, self.ID, "cond-program", idx))
+            cfg["prog"] = generate_cond(prng)
+            cfg["sched"] = "eager"
+        return cfg
 
 
 PROP = Prop()
